@@ -31,7 +31,7 @@ Proof.
   intros H R.
   destruct c, m; cbn [xreduce] in H; try discriminate;
     try (destruct (pg (x_pg s) t) as [g n]);
-    try (destruct (sw_resolve (xp_swi p) t (x_sw s)) as [sw k]);
+    unfold order_elapse in H; try (destruct (sw_resolve (max_sw p s) (xp_swi p) t (x_sw s)) as [sw k]);
     unfold_traits H;
     repeat match type of H with
       | context [if ?b then _ else _] => destruct b eqn:?
